@@ -121,6 +121,7 @@ def check_one(camp, pid, raw, name="x.c", origin="soup"):
         camp.count("lexer_exception(->C05)")
         return
     bad = [(e.highlights[0].lineno, e.highlights[0].column) for e in f.errors if e.name == "BAD_LEXEME"]
+    raw = f.source   # the text the File holds (inline content gets the newline translation a file read in text mode gets)
     res = scan.check(raw, toks, bad)
     kinds = {t.type for t in toks}
     feats = features(raw)
@@ -199,6 +200,7 @@ def diag_positions(camp, name, text, variant=None):
         return
     toks = r.tokens
     bad = [(e.highlights[0].lineno, e.highlights[0].column) for e in r.errors if e.name == "BAD_LEXEME"]
+    text = text.replace("\r\n", "\n").replace("\r", "\n")
     res = scan.check(text, toks, bad)
     camp.case("D\0" + text, len(r.diags) >= 1)
     camp.count("programs-with-diagnostic-positions-checked")
